@@ -10,8 +10,9 @@ w == TSym("w")
 B(k, a, b) == TOp(k, <<a, b>>)
 U(k, a) == TOp(k, <<a>>)
 N(k, a) == TOp(k, a)
-\* (the thorough tier samples three times as many of each operand set)
-Sub(S, n) == LET m == IF Thorough THEN 3 * n ELSE n IN IF Cardinality(S) <= m THEN S ELSE RandomSubset(m, S)
+\* (the thorough tier samples twice as many of each operand set)
+Fix(S, n) == IF Cardinality(S) <= n THEN S ELSE RandomSubset(n, S)      \* (not scaled: the function sets below are taken over it)
+Sub(S, n) == LET m == IF Thorough THEN 2 * n ELSE n IN IF Cardinality(S) <= m THEN S ELSE RandomSubset(m, S)
 Shared == {B("add", x, y), B("mul", x, y), N("add", <<x, y, z>>), N("mul", <<x, y, z>>), B("pow", x, y), B("pow", B("add", x, y), TInt(2)),
            U("sin", x), U("exp", B("mul", x, y)), B("add", B("mul", TInt(2), x), y), B("mul", TInt(3), B("pow", x, TInt(2))), U("sqrt", B("add", x, TInt(1))),
            B("div", x, y), U("neg", B("add", x, y)), B("add", B("pow", x, TInt(2)), B("pow", y, TInt(2)))}
@@ -28,9 +29,9 @@ Clash == {<<B("add", B("mul", TSym("x0"), y), U("sin", B("mul", TSym("x0"), y)))
 Sy == {TSym(n) : n \in {"x", "y", "p", "q", "r", "c", "d", "e"}}
 Subsets == {S \in SUBSET Sy : Cardinality(S) \in 2..5}
 NA(k, S) == TOp(k, SetToSeq(S))
-Multi == {[i \in 1..4 |-> NA(k, ss[i])] : k \in {"add", "mul"}, ss \in Sub([1..4 -> Sub(Subsets, 40)], 150)}
-         \cup {[i \in 1..5 |-> NA(k, ss[i])] : k \in {"add", "mul"}, ss \in Sub([1..5 -> Sub(Subsets, 30)], 80)}
-         \cup {[i \in 1..4 |-> U(f, NA("add", ss[i]))] : f \in {"exp", "sin"}, ss \in Sub([1..4 -> Sub(Subsets, 30)], 40)}
+Multi == {[i \in 1..4 |-> NA(k, ss[i])] : k \in {"add", "mul"}, ss \in Sub([1..4 -> Fix(Subsets, 40)], 150)}
+         \cup {[i \in 1..5 |-> NA(k, ss[i])] : k \in {"add", "mul"}, ss \in Sub([1..5 -> Fix(Subsets, 30)], 80)}
+         \cup {[i \in 1..4 |-> U(f, NA("add", ss[i]))] : f \in {"exp", "sin"}, ss \in Sub([1..4 -> Fix(Subsets, 30)], 40)}
          \cup {<<NA("add", {x, y}), NA("add", {x, TSym("p"), TSym("c")}), NA("add", {x, TSym("p"), TSym("d"), TSym("e")}), NA("add", {x, y, TSym("p"), TSym("q"), TSym("r")})>>}
 Cases == {[op |-> "cse", ts |-> t] : t \in Pairs \cup Triples \cup Singles \cup Clash \cup Multi}
 ASSUME PrintT(<<"cases", Cardinality(Cases)>>)
